@@ -96,10 +96,10 @@ class Backend:
         if st in ("ParallelBranch", "MapIteration") and parent in self.path_of:
             idx = name.rsplit("-", 1)[-1]
             return f"{self.path_of[parent]}/{idx}"
-        if parent in self.path_of and not name.startswith("root"):
-            # SDK-named inner operations (wait_for_callback's "create callback id" / "submitter")
-            tail = "cbid" if name.endswith("create callback id") else "submitter" if name.endswith("submitter") else name
-            return f"{self.path_of[parent]}#{tail}"
+        if parent in self.path_of and name.endswith(" create callback id"):
+            return f"{self.path_of[parent]}#cbid"
+        if parent in self.path_of and name.endswith(" submitter"):
+            return f"{self.path_of[parent]}#submitter"
         return name
 
     def ancestors(self, oid: str) -> list[str]:
